@@ -40,6 +40,19 @@ Proof. vm_compute. reflexivity. Qed.
    starts before the initial clock), job precedence and machine exclusivity with the CONFIGURED durations (C01's
    invariant with C02's: every record lasts at least its configured duration), all operations done (C04). Hence the
    optimum over all agent behaviours cannot be below the bound, and the terminal reward never exceeds its maximum. *)
+Theorem C06_lower_bound_below_every_terminated_run_every_instance :
+  forall (sigma : oracle) (i : inst) (fuel : nat) (x0 : state) (joker0 : Z) (ta : bool) (r : result) (m : mw)
+         (I : cinst) (lb C : Z),
+    inst_nonneg_b i = true ->
+    clock_b x0 = true -> wfs_b i x0 = true -> fresh2_b i x0 = true -> nodep_b x0 = true -> (0 <= s_now x0)%Z ->
+    cinst_rel i I -> classic I -> (0 < nmach I)%nat -> lower_bound I = Some lb ->
+    reach sigma i fuel x0 joker0 ta r m -> all_in_output i (r_x r) = true ->
+    (forall jb o e, In jb (s_jobs (r_x r)) -> In o (j_ops jb) -> o_end o = Time e -> (e <= C)%Z) ->
+    (lb <= C)%Z.
+Proof. intros sigma i fuel x0 joker0 ta r m I lb C Hnn. apply terminated_run_lower_bound; auto. Qed.
+Print Assumptions C06_lower_bound_below_every_terminated_run_every_instance.
+
+(* the same for the instance class of the earlier rounds (corollary) *)
 Theorem C06_lower_bound_below_every_terminated_run_flex :
   forall (sigma : oracle) (i : inst) (fuel : nat) (x0 : state) (joker0 : Z) (ta : bool) (r : result) (m : mw)
          (I : cinst) (lb C : Z),
@@ -49,7 +62,7 @@ Theorem C06_lower_bound_below_every_terminated_run_flex :
     reach sigma i fuel x0 joker0 ta r m -> all_in_output i (r_x r) = true ->
     (forall jb o e, In jb (s_jobs (r_x r)) -> In o (j_ops jb) -> o_end o = Time e -> (e <= C)%Z) ->
     (lb <= C)%Z.
-Proof. intros sigma i fuel x0 joker0 ta r m I lb C Hnn Hf. apply terminated_run_lower_bound; auto. Qed.
+Proof. intros. eapply C06_lower_bound_below_every_terminated_run_every_instance; eauto. Qed.
 Print Assumptions C06_lower_bound_below_every_terminated_run_flex.
 
 (* non-vacuity: a compiled instance (AGV, outages) is related to a classic instance, satisfies the hypotheses, and its
